@@ -185,6 +185,44 @@ theorem poll_refines_tick_loop (fin : List (Option Nat)) (sf tx f k : Nat) (s : 
     .reply tx (tickLoop s.timeout sf fin k (f + 1)).2 ∈ (runTicks fin sf s k (f + 1)).log :=
   runTicks_refines fin sf tx f k s h hk h1 h2
 
+/-! ### the default configuration (a server on which `ServerBuilder::shutdown_timeout` was never called) -/
+
+/-- **The default `shutdown_timeout` is the documented 30 s** ("By default shutdown timeout sets to 30 seconds"),
+read from `impl Default for ServerWorkerConfig` on this run (T1, structural) together with the other defaults:
+25600 connections per worker, `max(512 / parallelism, 1)` blocking threads with parallelism 2 when it cannot be
+found out; `ServerBuilder::new` starts from that configuration and `shutdown_timeout(sec)` stores `sec` seconds. -/
+theorem default_shutdown_timeout_is_30s :
+    Src.wcDefaultShutdownSecs = 30 ∧ Src.wcDefaultMaxConn = 25600 ∧ Src.wcDefaultParallelismFallback = 2 ∧
+    (∀ p, Src.wcDefaultBlockingThreads p = max (512 / p) 1) ∧ Src.sbStartsFromDefaultConfig = true :=
+  ⟨rfl, rfl, rfl, fun _ => rfl, rfl⟩
+
+/-- the `shutdown_timeout` (ms) of a worker of a server with the default configuration -/
+def defaultTimeoutMs : Nat := Src.wcDefaultShutdownSecs * 1000
+
+/-- **Graceful stop with the default configuration** — the stop theorems at the default read from the source:
+for every script of connection end times, the worker replies `true` exactly when everything had ended by then,
+`false` only once 30 s have passed since the stop, and in any case within 31 s (first tick + 30 ticks). -/
+theorem default_config_stop (t0 : Nat) (fin : List (Option Nat)) :
+    ((replyTime defaultTimeoutMs t0 fin).2 = true ↔ unfinished fin (replyTime defaultTimeoutMs t0 fin).1 = 0) ∧
+    ((replyTime defaultTimeoutMs t0 fin).2 = false → 30000 ≤ (replyTime defaultTimeoutMs t0 fin).1 - t0) ∧
+    (replyTime defaultTimeoutMs t0 fin).1 ≤ t0 + 31000 := by
+  have aux : ∀ T : Nat, T = 30000 →
+      ((replyTime T t0 fin).2 = true ↔ unfinished fin (replyTime T t0 fin).1 = 0) ∧
+      ((replyTime T t0 fin).2 = false → 30000 ≤ (replyTime T t0 fin).1 - t0) ∧ (replyTime T t0 fin).1 ≤ t0 + 31000 := by
+    intro T hT
+    have h1 := reply_value T t0 fin
+    have h2 := stop_completes T t0 fin
+    have e1 : Src.wkTickFirstMs = 1000 := rfl
+    have e2 : Src.wkTickNextMs = 1000 := rfl
+    refine ⟨h1.1, fun h => ?_, ?_⟩
+    · have := h1.2 h; omega
+    · rw [e1, e2] at h2; omega
+  exact aux defaultTimeoutMs rfl
+
+/-- a connection that its client ends 4.5 s after the stop: the worker replies `true` at the 5 s tick — not at
+3 s; one that never ends: `false` at the 30 s tick -/
+example : replyTime defaultTimeoutMs 0 [some 4500] = (5000, true) ∧ replyTime defaultTimeoutMs 0 [none] = (30000, false) := by decide
+
 end worker
 
 section server
@@ -214,12 +252,15 @@ def stepEvs (workers : List Nat) (g : Bool) (comp : Option Nat) (guard : String)
 `handle_cmd`, in the order and under the guard read from server.rs on this run, produce exactly the
 events of the model (for the order `srcWakeFirst` found in the source — either order of the first
 two steps is accepted); the command loop still leaves on `stopping`; `ServerHandle::stop` still
-sends its command before building the future; and the `None` arm of the worker's `Available` loop
-looks at the `Stop` channel again instead of ending the worker (F8, `Worker.closedArm`). -/
+sends its command before building the future; the `None` arm of the worker's `Available` loop
+looks at the `Stop` channel again instead of ending the worker (F8, `Worker.closedArm`); and the command
+stream hands on what the command channel yields and closes that channel nowhere (a command sent while a
+`Stop` is being handled stays in the channel until `run` returns, `later_stop_answered_at_completion`). -/
 theorem source_shape (workers : List Nat) (g : Bool) (comp : Option Nat) :
     stopEvs srcWakeFirst workers g comp = Src.hcStopOrder.flatMap (stepEvs workers g comp Src.hcAwaitGuard) ∧
-    Src.srRunBreaksOnStopping = true ∧ Src.hsStopSendsEagerly = true ∧ Src.wkNoneArmPollsStop = true := by
-  refine ⟨?_, rfl, rfl, rfl⟩
+    Src.srRunBreaksOnStopping = true ∧ Src.hsStopSendsEagerly = true ∧ Src.wkNoneArmPollsStop = true ∧
+    Src.smMuxHandsOnCmdRx = true := by
+  refine ⟨?_, rfl, rfl, rfl, rfl⟩
   first
     | (have hw : srcWakeFirst = true := by decide
        rw [hw]; simp [stopEvs, stepEvs, Src.hcStopOrder, Src.hcAwaitGuard, List.flatMap])
@@ -309,6 +350,41 @@ theorem second_stop_resolves (s : St) (cs : List Cmd) (hret : (runLoop s cs).ret
     (c : Cmd) (hc : c ∈ cs) (a : Nat) (ha : c.ack? = some a) :
     Ev.ack a ∈ (runLoop s cs).log ∨ Ev.ackDropped a ∈ (runLoop s cs).log :=
   runLoop_resolves cs s hret h0 c hc a ha
+
+/-- **Overlapping stops: every stop future resolves only when the shutdown is complete.**  A command that
+reaches the channel after the first `Stop` — `handle_cmd` does not look at the channel while it handles that
+`Stop`, and `run` leaves the loop right after it, so this is every command sent during the shutdown, a second
+(third, …) `stop(true)` or a `stop(false)` included — is answered by nothing but the dropping of the channel
+when `run` returns: after every worker was awaited (graceful) and the accept thread joined, and not before.
+A forced stop issued during a graceful one does not cut the graceful one short. -/
+theorem later_stop_answered_at_completion (s : St) (pre post : List Cmd) (g : Bool) (comp : Option Nat)
+    (h1 : s.stopping = false) (h2 : s.panicked = false) (h3 : ∀ c ∈ pre, c.isStop = false)
+    (h4 : ∀ c ∈ pre, ∀ idx, c = .workerFaulted idx → idx ∈ s.workers)
+    (c : Cmd) (hc : c ∈ post) (a : Nat) (ha : c.ack? = some a) :
+    ∃ l2, (runLoop s (pre ++ .stop g comp :: post)).log =
+        (runLoop s pre).log ++ stopEvs s.wakeFirst s.workers g comp ++ l2 ++ [.returned] ∧
+      Ev.ackDropped a ∈ l2 ∧ (∀ e ∈ l2, ∃ b, e = .ackDropped b) ∧
+      (∀ b, Ev.ackDropped b ∉ stopEvs s.wakeFirst s.workers g comp) ∧
+      (comp ≠ some a → Ev.ack a ∉ stopEvs s.wakeFirst s.workers g comp) := by
+  obtain ⟨_, hl⟩ := runLoop_stop_shape s pre post g comp h1 h2 h3 h4
+  refine ⟨droppedAcks post, hl, mem_droppedAcks hc ha, ?_, ?_, ?_⟩
+  · intro e he
+    simp only [droppedAcks, List.mem_filterMap, Option.map_eq_some_iff] at he
+    obtain ⟨_, _, b, _, rfl⟩ := he
+    exact ⟨b, rfl⟩
+  · intro b
+    unfold stopEvs ackEv
+    cases comp <;> cases g <;> cases s.wakeFirst <;> simp
+  · intro hne
+    unfold stopEvs ackEv
+    cases comp with
+    | none => cases g <;> cases s.wakeFirst <;> simp
+    | some x =>
+      have : x ≠ a := fun h => hne (by rw [h])
+      cases g <;> cases s.wakeFirst <;> simp [Ne.symm this]
+
+example : (serve true 1 [.stop true, .stop true, .stop false]).log =
+    [.wake .stop, .stopWorker 0 true, .awaitWorker 0, .joinAccept, .ack 0, .ackDropped 1, .ackDropped 2, .returned] := by decide
 
 /-- **A dropped stop future still stops the server**: `ServerHandle::stop` puts the command into the
 channel when it is *called*; the returned future only waits for the ack.  Whatever other calls are
